@@ -344,6 +344,9 @@ def one_case(rng, kind, k):
         ref, dec = gen_base(rng)
         R = cg.lattice_rotations()[rng.randrange(24)]
         tm = [rng.randint(-20000, 20000) for _ in range(3)]
+        if k % 4 == 1:
+            # far from the origin, still inside the PDB coordinate columns (positive: the field holds -999.999 .. 9999.999)
+            tm = [rng.randint(2000000, 8000000) for _ in range(3)]
         which = 'both' if k % 3 == 0 else 'dec'
         vd = move_exact(dec, R, tm)
         vr = move_exact(ref, R, tm) if which == 'both' else ref
@@ -432,7 +435,7 @@ def extra_checks(ctx):
         b = scores(ctx, dec.lines(), ref.lines(), False)
         bad, discards = None, 0
         for i, R in enumerate(cg.lattice_rotations()):
-            tm = [rng.randint(-20000, 20000) for _ in range(3)]
+            tm = [rng.randint(-20000, 20000) for _ in range(3)] if i % 3 else [rng.randint(2000000, 8000000) for _ in range(3)]
             for which in ('dec', 'both'):
                 vd = move_exact(dec, R, tm)
                 vr = move_exact(ref, R, tm) if which == 'both' else ref
